@@ -339,9 +339,9 @@ def check_modes(ctx):
     p = fi.params[1] if len(fi.params) > 1 else 'order'
     NONE = ('%sisNone' % p, '%s==None' % p)
     INT = ('type(%s)isint' % p, 'isinstance(%s,int)' % p, 'type(%s)==int' % p)
-    greedy = 'self._greedy_order(stochastic=False)'
-    stoch = '[self._greedy_order(stochastic=True)for_inrange(%s)]' % p
-    comp_var = re.compile(r'\[self\._greedy_order\(stochastic=True\)for\w+inrange\(')
+    greedy = 'self._greedy_order(False)'                  # keyword arguments of in-module callees are positional after parsing
+    stoch = '[self._greedy_order(True)for_inrange(%s)]' % p
+    comp_var = re.compile(r'\[self\._greedy_order\(True\)for\w+inrange\(')
     key = r'(lambdax:x\[1\]|itemgetter\(1\)|operator\.itemgetter\(1\))'
     pat = re.compile(r'min\((\[%s\]\+%s|%s\+\[%s\]),key=%s\)\[0\]' % (re.escape(greedy), re.escape(stoch), re.escape(stoch), re.escape(greedy), key))
     ok_none = ok_int = ok_given = False
@@ -351,7 +351,7 @@ def check_modes(ctx):
         if any(c in NONE and pol for c, pol in conds):
             ok_none = t == greedy + '[0]'
         elif any(c in INT and pol for c, pol in conds):
-            ok_int = pat.fullmatch(comp_var.sub('[self._greedy_order(stochastic=True)for_inrange(', t)) is not None
+            ok_int = pat.fullmatch(comp_var.sub('[self._greedy_order(True)for_inrange(', t)) is not None
         else:
             ok_given = t == p
     undecided_modes = None
